@@ -447,6 +447,76 @@ Lemma fallback_replaced_what_it_read c exact m0 kind mr xs : cas c = true ->
   Forall entry_ok (r_repl (rrun c exact (rinit (init_world m0 kind mr)) xs)).
 Proof. apply rreach_repl. Qed.
 
+(* ---- the store that compares only what it can see (rstep_s): it is the ideal store exactly when no two damage events leave
+   the same store-visible object *)
+Definition distinguishable (idn : nat -> ident) : Prop := forall g g', idn g = idn g' -> g = g'.
+
+Lemma ident_eqb_eq i j : ident_eqb i j = true <-> i = j.
+Proof.
+  destruct i as [|a], j as [|b]; simpl; split; intro H; try reflexivity; try discriminate.
+  - apply Nat.eqb_eq in H. subst. reflexivity.
+  - inversion H. apply Nat.eqb_refl.
+Qed.
+
+Lemma ident_eqb_inj idn g g' : distinguishable idn -> ident_eqb (idn g) (idn g') = Nat.eqb g g'.
+Proof.
+  intro D. destruct (Nat.eqb_spec g g') as [->|NE].
+  - apply ident_eqb_eq. reflexivity.
+  - destruct (ident_eqb (idn g) (idn g')) eqn:E; [|reflexivity]. apply ident_eqb_eq in E. elim NE. apply D. exact E.
+Qed.
+
+Lemma rstep_s_ideal idn c exact X x : distinguishable idn -> rstep_s idn c exact X x = rstep c exact X x.
+Proof.
+  intro D. destruct x as [e| |a r|a g|a rc ok|a ok]; try reflexivity.
+  unfold rstep_s, rstep. destruct (r_tag X a) as [g|]; [|reflexivity].
+  destruct (a_pc (w_actors (rw X) a)); try reflexivity.
+  destruct (r_bad X) as [g'|]; [|reflexivity].
+  rewrite (ident_eqb_inj idn g g' D). destruct (Nat.eqb_spec g g') as [->|NE]; [reflexivity|]. destruct ok; reflexivity.
+Qed.
+
+Lemma rrun_s_ideal idn c exact xs : distinguishable idn -> forall X, rrun_s idn c exact X xs = rrun c exact X xs.
+Proof.
+  intro D. induction xs as [|x xs IH]; intro X; [reflexivity|].
+  unfold rrun_s, rrun in *. simpl. unfold rstep_s_skip at 2, rstep_skip at 2. rewrite (rstep_s_ideal idn c exact X x D). apply IH.
+Qed.
+
+(* every applied pointer write replaced exactly the object STATE its committer had read, for the store `idn` *)
+Definition fallback_replaced_for (idn : nat -> ident) : Prop :=
+  forall c exact m0 kind mr xs, cas c = true ->
+  Forall entry_ok (r_repl (rrun_s idn c exact (rinit (init_world m0 kind mr)) xs)).
+
+Lemma fallback_replaced_distinguishable idn : distinguishable idn -> fallback_replaced_for idn.
+Proof. intros D c exact m0 kind mr xs CAS. rewrite (rrun_s_ideal idn c exact xs D). apply rreach_repl. exact CAS. Qed.
+
+(* the witness (ABA on an unusable pointer): the pointer is damaged (incarnation 0); actors 0 and 1 both read it under a lock
+   that excludes nobody and recover version 0 by (exact) scans; actor 1's conditional write keyed to that object lands -- the
+   pointer is repaired and 1 is acknowledged; the pointer is then damaged AGAIN (incarnation 1) in a way the store cannot
+   tell from the first (deleted again: create-if-absent; or the same garbage: same MD5); actor 0's conditional write, keyed
+   to incarnation 0, is applied on top of it: acknowledged, and 1's acknowledged operation is no longer in the table. *)
+Definition rx a k := RE {| e_actor := a; e_kind := k |}.
+Definition double_damage_witness : list revent :=
+  [ RDamage; RBegin 0 0; RBegin 1 0;
+    rx 0 (ELockTry true); RReadBad 0 0; RRefresh 0 (RScan 0) true; rx 0 (EMetaW 100); rx 0 (EFence true);
+    rx 1 (ELockTry true); RReadBad 1 0; RRefresh 1 (RScan 0) true; rx 1 (EMetaW 100); rx 1 (EFence true); RFlip 1 true; rx 1 ERelease;
+    RDamage;
+    RFlip 0 true; rx 0 ERelease ]%nat.
+
+Ltac double_damage_refutation :=
+  let F := fresh "F" in
+  intro F;
+  specialize (F {| cas := true; lockkind := GrantAll |} true {| m_ops := []; m_cur := 1; m_lu := 100 |} (fun _ => KFresh) (fun _ => 50%nat)
+                double_damage_witness eq_refl);
+  vm_compute in F;
+  match type of F with Forall _ (_ :: _ :: nil) => idtac end;
+  inversion F as [|? ? _ F2]; inversion F2 as [|? ? [E _] _]; discriminate E.
+
+Lemma fallback_replaced_absent_refuted : ~ fallback_replaced_for (fun _ => IAbsent).
+Proof. double_damage_refutation. Qed.
+Lemma fallback_replaced_same_garbage_refuted : ~ fallback_replaced_for (fun _ => IGarbled 0).
+Proof. double_damage_refutation. Qed.
+Lemma fallback_replaced_full_refuted : ~ (forall idn, fallback_replaced_for idn).
+Proof. intro F. exact (fallback_replaced_absent_refuted (F _)). Qed.
+
 (* "an acknowledged commit is in the table named by the pointer, the table is the serial application of the pointer
    writes, each once, one chain" -- for the machine whose scans may return anything (exact) or only the right version *)
 Definition fallback_no_lost_update_for (exact : bool) : Prop :=
@@ -471,7 +541,6 @@ Qed.
    its file (vid 2, same version number, written later); 1's conditional write lands and 1 is acknowledged; the pointer
    is then damaged; actor 2's scan returns 0's unpublished file (the highest number, the latest of the two) and 2 commits
    on top of it: acknowledged -- and 1's acknowledged operation is no longer in the table, 0's unacknowledged one is. *)
-Definition rx a k := RE {| e_actor := a; e_kind := k |}.
 Definition lost_update_witness : list revent :=
   [ rx 0 (EBegin 0); rx 1 (EBegin 0); rx 0 (ELockTry true); rx 1 (ELockTry true); rx 0 (EValidate 0 true); rx 1 (EValidate 0 true);
     rx 1 (EMetaW 100); rx 0 (EMetaW 100); rx 1 (EFence true); rx 1 (EFlip true); rx 1 ERelease;
@@ -490,3 +559,38 @@ Qed.
 
 Lemma fallback_no_lost_update_full_refuted : ~ (forall exact, fallback_no_lost_update_for exact).
 Proof. intro F. exact (fallback_full_refuted (F false)). Qed.
+
+(* ---- the same statements for the store that compares only what it can see *)
+Definition fallback_no_lost_update_s (idn : nat -> ident) (exact : bool) : Prop :=
+  forall c m0 kind mr xs, cas c = true ->
+  let w := rw (rrun_s idn c exact (rinit (init_world m0 kind mr)) xs) in
+  m_ops (file w (w_ptr w)) = m_ops m0 ++ map snd (w_hist w)
+  /\ NoDup (map snd (w_hist w))
+  /\ (forall a, a_pc (w_actors w a) = PDone Success -> In a (map snd (w_hist w)) /\ In a (m_ops (file w (w_ptr w))))
+  /\ chain_ok (w_files w) 0%nat (w_hist w).
+
+Lemma fallback_no_lost_update_s_exact idn : distinguishable idn -> fallback_no_lost_update_s idn true.
+Proof.
+  intros D c m0 kind mr xs CAS. cbv zeta. rewrite (rrun_s_ideal idn c true xs D).
+  exact (fallback_no_lost_update_exact c m0 kind mr xs CAS).
+Qed.
+
+(* exact scans do not help when the pointer is deleted twice within one attempt: actor 1 is acknowledged and overwritten *)
+Lemma fallback_no_lost_update_s_double_damage_refuted : ~ fallback_no_lost_update_s (fun _ => IAbsent) true.
+Proof.
+  intro F.
+  specialize (F {| cas := true; lockkind := GrantAll |} {| m_ops := []; m_cur := 1; m_lu := 100 |} (fun _ => KFresh) (fun _ => 50%nat)
+                double_damage_witness eq_refl).
+  cbv zeta in F. destruct F as [_ [_ [A _]]]. specialize (A 1%nat).
+  vm_compute in A. destruct (A eq_refl) as [_ [E|[]]]; discriminate.
+Qed.
+
+Lemma fallback_no_lost_update_s_inexact_refuted : ~ fallback_no_lost_update_s (fun g => IGarbled g) false.
+Proof.
+  intro F. apply fallback_full_refuted. intros c m0 kind mr xs CAS.
+  assert (D : distinguishable (fun g => IGarbled g)) by (intros g g' E; inversion E; reflexivity).
+  specialize (F c m0 kind mr xs CAS). cbv zeta in F. rewrite (rrun_s_ideal _ c false xs D) in F. exact F.
+Qed.
+
+Lemma fallback_no_lost_update_s_full_refuted : ~ (forall idn exact, fallback_no_lost_update_s idn exact).
+Proof. intro F. exact (fallback_no_lost_update_s_double_damage_refuted (F _ true)). Qed.
